@@ -172,6 +172,13 @@ func (lf *LockFacts) transfer(b *ssa.BasicBlock, in []Lock, stop ssa.Instruction
 	return cur
 }
 
+// Reached reports whether the block is reachable from the entry (the recover
+// block of a function with defers is not).
+func (lf *LockFacts) Reached(b *ssa.BasicBlock) bool {
+	_, ok := lf.in[b]
+	return ok
+}
+
 // HeldAt returns the locks that are held on every path reaching in.
 func (lf *LockFacts) HeldAt(in ssa.Instruction) []Lock {
 	b := in.Block()
